@@ -30,7 +30,11 @@ func vpH_C16_cache() {
 			m = &ClientEventMsg{Event: hist.next(nev)}
 			nev++
 		case 1:
-			m = &ClientReqMsg{SubscriptionID: vpSym1("sub"), ReqFilters: []*ReqFilter{vpGenFilterFocused(fmt.Sprintf("f%d", i))}}
+			f := vpGenFilterFocused
+			if vpTier() > 0 {
+				f = vpGenFilterSmall // longer sequences, smaller filter family
+			}
+			m = &ClientReqMsg{SubscriptionID: vpSym1("sub"), ReqFilters: []*ReqFilter{f(fmt.Sprintf("f%d", i))}}
 		case 2:
 			m = &ClientCountMsg{SubscriptionID: vpSym1("sub"), ReqFilters: []*ReqFilter{{}}}
 		case 3:
@@ -109,7 +113,9 @@ func vpH_C16_dump() {
 	})
 	capacity := vpCapacity(1)
 	a := NewCacheHandler(capacity)
-	n := vpHistSteps()
+	// 2-step histories in both tiers: restoring re-inserts every event, so 3-step histories
+	// exceed 3 million paths even for a single query shape (measured: 2.9 million in 15 min)
+	n := 2
 	hist := vpNewHist(n, true, false)
 	for _, d := range hist.d {
 		vpAssume(d[0] < 0x80) // events carry valid UTF-8 (a dump is JSON text)
